@@ -268,6 +268,7 @@ structure Gw where
   nextId : Nat := 0
   refThrottle : Int := 0
   resetThrottle : Int := 0
+  ord : Nat := 0                              -- iteration order parameter for map ranges
   out : Array String := #[]
   panic : Option String := none
   deriving Inhabited
